@@ -31,6 +31,30 @@ RULES = [
   "pool of keccak states; every user calls Reset() before writing, the digest does not depend on which instance is reused"),
 
 
+
+ # ---- node-local configuration flowing into state-machine objects (kind node-local-config): a NEW flow is a finding ----
+ ("app/app.go", "NewTeleport", "node-local-config", "crisis.FlagSkipGenesisInvariants -> *", "class:config-non-consensus",
+  "crisis AppModule.InitGenesis asserts the registered invariants unless skipped: assert-only (panic = halt), nothing is written"),
+ ("app/app.go", "NewTeleport", "node-local-config", "flags.FlagHome -> *", "class:config-non-consensus",
+  "home path of the upgrade keeper: location of upgrade-info.json (written when a plan executes, read at start); never read into state"),
+ ("app/app.go", "NewTeleport", "node-local-config", "sdkserver.FlagUnsafeSkipUpgrades -> *", "class:operator-override-by-design",
+  "--unsafe-skip-upgrades: the cosmos-sdk upgrade keeper skips a scheduled plan at the listed heights; consensus relevant BY DESIGN (an emergency override all validators must apply together), not a teleport decision"),
+ ("app/app.go", "NewTeleport", "node-local-config", "param traceStore*", "class:config-non-consensus", "--trace-store: KV operation tracing written to a file"),
+ ("app/app.go", "NewTeleport", "node-local-config", "sdkserver.FlagInvCheckPeriod -> *", "class:config-non-consensus",
+  "crisis EndBlocker asserts the invariants every n blocks: assert-only (panic = halt on a broken invariant), no state, no events; exercised with different periods by the twin replay"),
+ ("app/app.go", "NewTeleport", "node-local-config", "srvflags.EVMTracer -> *", "class:config-non-consensus",
+  "ethermint evm keeper tracer (json / struct / access_list / markdown): sets vm.Config.Debug and a tracer that only observes the interpreter; gas, return data, logs and state are those of the untraced run — exercised with different tracers by the twin replay and the replica differential"),
+ ("cmd/teleport/root.go", "(appCreator).newApp", "node-local-config", "*baseapp.SetPruning", "class:config-non-consensus", "which old versions of the stores are kept on disk"),
+ ("cmd/teleport/root.go", "(appCreator).newApp", "node-local-config", "flags.FlagHome -> *", "class:config-non-consensus", "snapshot directory / metadata DB of state sync"),
+ ("cmd/teleport/root.go", "(appCreator).newApp", "node-local-config", "sdkserver.FlagHalt* -> *", "class:operator-override-by-design", "--halt-height / --halt-time: the node stops itself (panic in BeginBlock / Commit); a halted node produces no results"),
+ ("cmd/teleport/root.go", "(appCreator).newApp", "node-local-config", "sdkserver.FlagIndexEvents -> *", "class:config-non-consensus",
+  "which events the Tendermint indexer indexes: sets the `index` flag of event attributes in the ABCI responses, not their keys / values (events are not part of the results hash)"),
+ ("cmd/teleport/root.go", "(appCreator).newApp", "node-local-config", "sdkserver.FlagInterBlockCache*", "class:config-non-consensus", "read cache in front of the IAVL stores (write-through); exercised on one twin / replica"),
+ ("cmd/teleport/root.go", "(appCreator).newApp", "node-local-config", "sdkserver.FlagMinGasPrices -> *", "class:config-non-consensus", "minimum gas prices are enforced in CheckTx only (mempool admission), never in DeliverTx; exercised on one twin / replica"),
+ ("cmd/teleport/root.go", "(appCreator).newApp", "node-local-config", "sdkserver.FlagMinRetainBlocks -> *", "class:config-non-consensus", "ResponseCommit.RetainHeight: a pruning hint to Tendermint"),
+ ("cmd/teleport/root.go", "(appCreator).newApp", "node-local-config", "sdkserver.FlagStateSync* -> *", "class:config-non-consensus", "state-sync snapshot schedule"),
+ ("cmd/teleport/root.go", "(appCreator).newApp", "node-local-config", "sdkserver.FlagTrace -> *", "class:config-non-consensus",
+  "--trace adds stack traces to the ABCI Log of failed transactions; the log is not part of the results hash (NOT varied by the twin replay, which compares logs)"),
  # ---- error text / execution context used as a value (kinds error-text-in-consensus-data, execution-context-capture) ----
  ("app/app.go", "NewTeleport", "error-text-in-consensus-data", "*", "class:startup-wiring", "tmos.Exit(err.Error()) when the stores cannot be loaded at process start"),
  ("x/aggregate/keeper/ibc_hook.go", "(Keeper).OnRecvPacket", "error-text-in-consensus-data", "err.Error()", "class:deterministic-error-text",
